@@ -119,6 +119,12 @@ type Enc struct {
 	localAllocs    []*localAlloc
 	sliceRoots     map[ssa.Value]sliceRoot
 	boundFactDone  map[string]bool
+	patAliases     map[string]string
+	// set while the contract of a closure made in this function is evaluated at its call site
+	curClosureResolve func(string, *State) (TV, bool)
+	// non-nil while the body of a closure is encoded in place of a call to it
+	inl      *inlineFrame
+	ninlined int
 }
 
 // sliceRoot: v is root[shift:...] (a chain of reslices); cells of v are addressed through root
@@ -157,11 +163,17 @@ func (e *Enc) freshName(prefix string) string {
 func (e *Enc) emit(s string) { e.items = append(e.items, s) }
 
 func (e *Enc) declare(name, sortName string) string {
+	if e.inl != nil {
+		name = e.inl.prefix + name
+	}
 	e.emit(fmt.Sprintf("(declare-const %s %s)", q(name), qs(sortName)))
 	return q(name)
 }
 
 func (e *Enc) define(name, sortName, term string) string {
+	if e.inl != nil {
+		name = e.inl.prefix + name
+	}
 	e.emit(fmt.Sprintf("(define-fun %s () %s %s)", q(name), qs(sortName), term))
 	return q(name)
 }
@@ -554,7 +566,7 @@ func (e *Enc) emitBoundFacts(st *State) {
 		if h.Elem == 0 {
 			continue
 		}
-		cur := st.get(h)
+		cur := e.patAlias(st.get(h), h.Sort)
 		b := st.boundOf(h)
 		key := cur + "|" + b + "|" + e.en[e.curBlock]
 		if e.boundFactDone[key] {
@@ -587,6 +599,27 @@ func (e *Enc) emitBoundFacts(st *State) {
 			e.fact(fmt.Sprintf("(forall ((%s Int) (%s %s)) (! (=> (<= %s %s) (<= %s %s)) :pattern (%s)))", qa, qb, ks, qa, now, val(sel), b, sel))
 		}
 	}
+}
+
+// patAlias gives a term that is used inside quantifier patterns a declared name of its own:
+// defined heap versions may expand to terms with `ite` (stores of conditional values), which
+// the solvers reject in patterns.
+func (e *Enc) patAlias(term, sortName string) string {
+	if strings.HasSuffix(term, "@0") || strings.HasSuffix(term, "@0|") {
+		return term
+	}
+	if e.patAliases == nil {
+		e.patAliases = map[string]string{}
+	}
+	if a, ok := e.patAliases[term]; ok {
+		return a
+	}
+	e.nquant++
+	a := q(fmt.Sprintf("pa$%d", e.nquant))
+	e.emit(fmt.Sprintf("(declare-const %s %s)", a, sortName))
+	e.emit(fmt.Sprintf("(assert (= %s %s))", a, term))
+	e.patAliases[term] = a
+	return a
 }
 
 // emitEntryClosed: the heap the function is entered with is closed — an object that exists on
@@ -669,7 +702,7 @@ func (e *Enc) zeroInit(st *State, ref string, t types.Type) {
 func (e *Enc) run() (err error) {
 	defer func() {
 		if r := recover(); r != nil {
-			if pe, ok := r.(error); ok && strings.HasPrefix(pe.Error(), "contract error") {
+			if pe, ok := r.(error); ok && (strings.HasPrefix(pe.Error(), "contract error") || strings.HasPrefix(pe.Error(), "contract structure lost")) {
 				err = pe
 				return
 			}
@@ -706,6 +739,19 @@ func (e *Enc) run() (err error) {
 	e.touch(allocHeap)
 	e.findLoops()
 	e.findLocalAllocs()
+	if e.fc != nil {
+		maxOrd := 0
+		for _, li := range e.loops {
+			if li.ordinal > maxOrd {
+				maxOrd = li.ordinal
+			}
+		}
+		for _, cl := range e.fc.Invs {
+			if cl.Loop > maxOrd {
+				panic(fmt.Errorf("contract structure lost: %s has %d loop(s); the invariant for loop %d has nothing to attach to", e.key, maxOrd, cl.Loop))
+			}
+		}
+	}
 
 	// parameters and free variables
 	e.curBlock = nil
@@ -885,6 +931,10 @@ func (e *Enc) loopMods(li *loopInfo) ModSet {
 }
 
 func (e *Enc) mergeStates(b *ssa.BasicBlock, edges []edge) *State {
+	return e.mergeStatesN(fmt.Sprint(b.Index), edges)
+}
+
+func (e *Enc) mergeStatesN(tag string, edges []edge) *State {
 	if len(edges) == 1 {
 		return edges[0].st.clone()
 	}
@@ -919,7 +969,7 @@ func (e *Enc) mergeStates(b *ssa.BasicBlock, edges []edge) *State {
 		}
 		// a declared constant plus a defining equation (not define-fun): solvers expand
 		// define-fun as a macro, and an `ite` inside a quantifier pattern is rejected
-		st.m[k] = e.declare(fmt.Sprintf("m$%d$%s", b.Index, k), h.Sort)
+		st.m[k] = e.declare(fmt.Sprintf("m$%s$%s", tag, k), h.Sort)
 		e.emit("(assert (= " + st.m[k] + " " + term + "))")
 	}
 	// write bounds: equal on all paths, or the merged allocation counter
@@ -977,7 +1027,10 @@ func (e *Enc) encodeBlock(b *ssa.BasicBlock) {
 	}
 	// guard
 	var st *State
-	if b == fn.Blocks[0] {
+	if b == fn.Blocks[0] && e.inl != nil {
+		e.en[b] = e.inl.guard
+		st = e.inl.st.clone()
+	} else if b == fn.Blocks[0] {
 		e.en[b] = "true"
 		st = e.entry.clone()
 	} else {
@@ -1204,7 +1257,7 @@ func (e *Enc) loopResolver(li *loopInfo, st0 *State, phiVal func(*ssa.Phi) strin
 					return TV{Term: "(+ " + phiVal(p) + " 1)", Sort: "Int", T: types.Typ[types.Int]}, true
 				}
 			}
-			return TV{}, false
+			panic(fmt.Errorf("contract structure lost: loop %d of %s is not a range over a slice or array any more (#iter has no meaning)", li.ordinal, e.key))
 		}
 		if name == "#range" {
 			// the slice ranged over by a range-over-slice loop
@@ -1220,11 +1273,16 @@ func (e *Enc) loopResolver(li *loopInfo, st0 *State, phiVal func(*ssa.Phi) strin
 					}
 				}
 			}
-			return TV{}, false
+			// the map (or string) ranged over by a range-over-map loop
+			if li.rangeV != nil {
+				x := li.rangeV.X
+				return TV{Term: e.term(x), Sort: s.SortOf(x.Type()), T: x.Type()}, true
+			}
+			panic(fmt.Errorf("contract structure lost: loop %d of %s is not a range loop any more (#range has no meaning)", li.ordinal, e.key))
 		}
 		if name == "#done" {
 			if li.rangeV == nil {
-				return TV{}, false
+				panic(fmt.Errorf("contract structure lost: loop %d of %s is not a range over a map any more (#done has no meaning)", li.ordinal, e.key))
 			}
 			h := e.doneHeap(li.rangeV)
 			ks := "Int"
@@ -1600,6 +1658,14 @@ func (e *Enc) encodeInstr(in ssa.Instruction, st *State) {
 			e.applyDeferred(d, st, dominates)
 		}
 	case *ssa.Return:
+		if e.inl != nil {
+			var res []string
+			for _, r := range in.Results {
+				res = append(res, e.term(r))
+			}
+			e.inl.rets = append(e.inl.rets, inlineRet{cond: e.en[e.curBlock], st: st.clone(), results: res})
+			return
+		}
 		e.encodeReturn(in, st)
 	case *ssa.Panic:
 		if e.fn.Recover == nil {
@@ -2167,4 +2233,109 @@ func splitEnsures(e Expr) []Expr {
 		}
 	}
 	return []Expr{e}
+}
+
+
+// ---- encoding a closure's body in place of a direct (or deferred) call to it
+
+type inlineRet struct {
+	cond    string
+	st      *State
+	results []string
+}
+
+type inlineFrame struct {
+	prefix string
+	guard  string
+	st     *State
+	rets   []inlineRet
+}
+
+// canInline: a closure made in the function under proof, without a contract of its own, with an
+// acyclic body, no defers, no recover and no further closures — the deferred clean-up idiom.
+func (e *Enc) canInline(fn *ssa.Function) bool {
+	if e.inl != nil || fn == nil || len(fn.Blocks) == 0 || len(fn.Blocks) > 40 || fn == e.fn {
+		return false
+	}
+	if fc := e.ctx.contracts.Funcs[funcKey(fn)]; fc != nil {
+		return false
+	}
+	if fn.Recover != nil {
+		return false
+	}
+	for _, b := range fn.Blocks {
+		for _, s := range b.Succs {
+			if s.Dominates(b) {
+				return false
+			}
+		}
+		for _, in := range b.Instrs {
+			switch in.(type) {
+			case *ssa.Defer, *ssa.Go, *ssa.Select, *ssa.MakeClosure, *ssa.RunDefers:
+				return false
+			}
+		}
+	}
+	return true
+}
+
+// inlineClosure encodes fn's blocks starting from the caller's current state and leaves the
+// caller's state as the merge of fn's returns. args are the actual parameters, bindings the
+// captured cells. The result terms (one per result) are returned.
+func (e *Enc) inlineClosure(fn *ssa.Function, args []ssa.Value, bindings []ssa.Value, st *State) ([]string, bool) {
+	if len(args) != len(fn.Params) || len(bindings) != len(fn.FreeVars) {
+		return nil, false
+	}
+	argTerms := make([]string, len(args))
+	for i, a := range args {
+		argTerms[i] = e.term(a)
+	}
+	bindTerms := make([]string, len(bindings))
+	for i, b := range bindings {
+		bindTerms[i] = e.term(b)
+	}
+	guard := "true"
+	if e.curBlock != nil {
+		guard = e.en[e.curBlock]
+	}
+	e.ninlined++
+	frame := &inlineFrame{prefix: fmt.Sprintf("i%d$", e.ninlined), guard: guard, st: st}
+	saveFn, saveBlock, saveDeferred := e.fn, e.curBlock, e.deferred
+	e.fn = fn
+	e.inl = frame
+	e.deferred = nil
+	for i, p := range fn.Params {
+		e.vals[p] = argTerms[i]
+	}
+	for i, fv := range fn.FreeVars {
+		e.vals[fv] = bindTerms[i]
+		if pl, ok := e.places[bindings[i]]; ok {
+			e.places[fv] = pl
+		}
+	}
+	for _, b := range e.topoOrder() {
+		e.encodeBlock(b)
+	}
+	e.fn, e.curBlock, e.deferred, e.inl = saveFn, saveBlock, saveDeferred, nil
+	e.warn("the body of closure %s is encoded in place of the call to it", shortKey(funcKey(fn)))
+	if len(frame.rets) == 0 {
+		// never returns normally: nothing after the call is reachable
+		e.fact("false")
+		return nil, true
+	}
+	var edges []edge
+	for _, r := range frame.rets {
+		edges = append(edges, edge{cond: r.cond, st: r.st})
+	}
+	merged := e.mergeStatesN(frame.prefix+"ret", edges)
+	st.m, st.b, st.bdef = merged.m, merged.b, merged.bdef
+	var results []string
+	for i := 0; i < fn.Signature.Results().Len(); i++ {
+		term := frame.rets[len(frame.rets)-1].results[i]
+		for j := len(frame.rets) - 2; j >= 0; j-- {
+			term = "(ite " + frame.rets[j].cond + " " + frame.rets[j].results[i] + " " + term + ")"
+		}
+		results = append(results, term)
+	}
+	return results, true
 }
